@@ -13,6 +13,38 @@ use tu_verif::sched::{self, Config, Exec, Halt, Parked};
 /// the poll budget of the unit being explored (recorded in replay cases)
 static SPIN: AtomicUsize = AtomicUsize::new(0);
 
+/// what the upstream iterator of the unit being explored reports as its size hint (0 exact, 1 nothing
+/// `(0, None)`, 2 an inexact non-zero lower bound `(1, Some(n + 2))`); recorded in replay cases
+static HINT: AtomicUsize = AtomicUsize::new(0);
+const HINTS: [&str; 3] = ["exact", "(0, None)", "(1, Some(n + 2))"];
+
+/// 0..n with a chosen (legal) size hint
+struct Upstream {
+    next: usize,
+    n: usize,
+    hint: usize,
+}
+
+impl Iterator for Upstream {
+    type Item = usize;
+    fn next(&mut self) -> Option<usize> {
+        if self.next < self.n {
+            self.next += 1;
+            Some(self.next - 1)
+        } else {
+            None
+        }
+    }
+    fn size_hint(&self) -> (usize, Option<usize>) {
+        let left = self.n - self.next;
+        match self.hint {
+            1 => (0, None),
+            2 => (left.min(1), Some(left + 2)),
+            _ => (left, Some(left)),
+        }
+    }
+}
+
 struct Shared {
     outputs: Mutex<Vec<usize>>,
     calls: Vec<AtomicUsize>,
@@ -47,7 +79,7 @@ fn exec(w: usize, n: usize, prefix: &[usize]) -> (Exec<Vec<usize>>, Vec<usize>) 
             s3.calls[x].fetch_add(1, Ordering::SeqCst);
             f(x)
         });
-        let mut pipe = (0..n).pipe(pipeline, w as u8);
+        let mut pipe = Upstream { next: 0, n, hint: HINT.load(Ordering::SeqCst) }.pipe(pipeline, w as u8);
         // Pipe::new installed a process-exit panic hook; the harness wants panics reported
         tu_verif::guard::quiet_panics();
         let mut out = vec![];
@@ -87,7 +119,7 @@ fn check(run: &mut Run, mode: &str, w: usize, n: usize, bound: Option<usize>, x:
         run.nontrivial += 1;
     }
     let expect: Vec<usize> = (0..n).map(f).collect();
-    let case = || json!({"mode": mode, "workers": w, "items": n, "bound": bound, "spin_polls": SPIN.load(Ordering::SeqCst), "choices": x.choices(), "schedule": x.schedule()});
+    let case = || json!({"mode": mode, "workers": w, "items": n, "bound": bound, "spin_polls": SPIN.load(Ordering::SeqCst), "upstream_size_hint": HINTS[HINT.load(Ordering::SeqCst)], "choices": x.choices(), "schedule": x.schedule()});
     if x.spun > 0 {
         run.count_n("polls of busy waits let through (long waits)", x.spun);
     }
@@ -145,6 +177,8 @@ struct Unit {
     /// "long waits": every busy-waiting worker really polls this many times before the scheduler
     /// treats its wait as blocking (an item in front that is slow by so many polls); 0 = blocking at once
     spin: usize,
+    /// index into HINTS
+    hint: usize,
 }
 
 fn units(run: &Run) -> Vec<Unit> {
@@ -153,21 +187,21 @@ fn units(run: &Run) -> Vec<Unit> {
     // explicit-state full search (no preemption bound): cheap, so it goes furthest
     for w in 0..=3usize {
         for n in 0..=(if quick { 3 } else { 6 }) {
-            u.push(Unit { mode: "states", w, n, bound: None, part: None, spin: 0 });
+            u.push(Unit { mode: "states", w, n, bound: None, part: None, spin: 0, hint: 0 });
         }
     }
     if !quick {
         for n in 0..=4 {
-            u.push(Unit { mode: "states", w: 4, n, bound: None, part: None, spin: 0 });
+            u.push(Unit { mode: "states", w: 4, n, bound: None, part: None, spin: 0, hint: 0 });
         }
         for n in 0..=2 {
-            u.push(Unit { mode: "states", w: 5, n, bound: None, part: None, spin: 0 });
+            u.push(Unit { mode: "states", w: 5, n, bound: None, part: None, spin: 0, hint: 0 });
         }
     }
     // stateless preemption-bounded cross-check (merges nothing; grows fast with the bound)
     let mut split = |w: usize, n: usize, bound: usize, of: usize| {
         for k in 0..of {
-            u.push(Unit { mode: "bounded", w, n, bound: Some(bound), part: if of > 1 { Some((k, of)) } else { None }, spin: 0 });
+            u.push(Unit { mode: "bounded", w, n, bound: Some(bound), part: if of > 1 { Some((k, of)) } else { None }, spin: 0, hint: 0 });
         }
     };
     if !quick {
@@ -176,7 +210,7 @@ fn units(run: &Run) -> Vec<Unit> {
         split(2, 4, 4, 8);
         split(3, 4, 2, 8);
     }
-    let mut bounded = |w: usize, n: usize, bound: usize| u.push(Unit { mode: "bounded", w, n, bound: Some(bound), part: None, spin: 0 });
+    let mut bounded = |w: usize, n: usize, bound: usize| u.push(Unit { mode: "bounded", w, n, bound: Some(bound), part: None, spin: 0, hint: 0 });
     if quick {
         for n in 1..=3 {
             bounded(1, n, 3);
@@ -198,10 +232,19 @@ fn units(run: &Run) -> Vec<Unit> {
         bounded(3, 2, 3);
         bounded(4, 2, 1);
     }
+    // upstream iterators whose size hint is not exact (every interleaving again for the small cases):
+    // the number of items is what the iterator yields, not what it announces
+    for hint in 1..HINTS.len() {
+        for w in 1..=2usize {
+            for n in 2..=(if quick { 3 } else { 4 }) {
+                u.push(Unit { mode: "states", w, n, bound: None, part: None, spin: 0, hint });
+            }
+        }
+    }
     // long waits: the same bounded search while every turn wait really spins (relative processing
     // speed: the item in front is slower by that many polls of the turn counter)
     let spin = if quick { 1 << 21 } else { 1 << 24 };
-    let mut long = |w: usize, n: usize, bound: usize| u.push(Unit { mode: "long-waits", w, n, bound: Some(bound), part: None, spin });
+    let mut long = |w: usize, n: usize, bound: usize| u.push(Unit { mode: "long-waits", w, n, bound: Some(bound), part: None, spin, hint: 0 });
     if quick {
         long(2, 2, 1);
     } else {
@@ -220,6 +263,7 @@ fn main() {
         let n = case["items"].as_u64().unwrap() as usize;
         let choices: Vec<usize> = case["choices"].as_array().unwrap().iter().map(|v| v.as_u64().unwrap() as usize).collect();
         sched::set_spin_polls(case["spin_polls"].as_u64().unwrap_or(0) as usize);
+        HINT.store(HINTS.iter().position(|h| Some(*h) == case["upstream_size_hint"].as_str()).unwrap_or(0), Ordering::SeqCst);
         let (x, calls) = exec(w, n, &choices);
         // replaying a recorded schedule must reproduce it exactly
         if x.choices() != choices {
@@ -231,7 +275,7 @@ fn main() {
     let us = units(&run);
     if let Some(n) = run.describe_unit() {
         let u = &us[n as usize];
-        println!("{}", json!({"mode": u.mode, "workers": u.w, "items": u.n, "bound": u.bound, "part": u.part, "spin_polls": u.spin}));
+        println!("{}", json!({"mode": u.mode, "workers": u.w, "items": u.n, "bound": u.bound, "part": u.part, "spin_polls": u.spin, "upstream_size_hint": HINTS[u.hint]}));
         return;
     }
     run.bounds.insert("explicit_state".into(), json!("all interleavings (no preemption bound) for every listed (workers, items)"));
@@ -243,6 +287,7 @@ fn main() {
         }
         sched::set_spin_polls(u.spin);
         SPIN.store(u.spin, Ordering::SeqCst);
+        HINT.store(u.hint, Ordering::SeqCst);
         // determinism of the machinery itself: the default schedule replayed twice gives identical traces
         let (a, _) = exec(u.w, u.n, &[]);
         let (b, _) = exec(u.w, u.n, &a.choices());
@@ -278,7 +323,7 @@ fn main() {
         run.count_n(&format!("{}:executions", u.mode), stats.executions);
         run.count_n("states", stats.states);
         run.count_n("transitions", stats.transitions);
-        per_unit.push(json!({"mode": u.mode, "workers": w, "items": n, "bound": bound, "part": u.part, "spin_polls": u.spin, "executions": stats.executions, "states": stats.states,
+        per_unit.push(json!({"mode": u.mode, "workers": w, "items": n, "bound": bound, "part": u.part, "spin_polls": u.spin, "upstream_size_hint": HINTS[u.hint], "executions": stats.executions, "states": stats.states,
             "transitions": stats.transitions, "terminal_states": stats.terminal_states, "max_depth": stats.max_depth,
             "max_preemptions_in_a_schedule": stats.max_preemptions_seen, "completed": !stats.stopped_early}));
         if stats.stopped_early && run.num_violations() == 0 {
